@@ -433,8 +433,9 @@ var (
 	genMethods     = []string{"GET", "POST", "PUT", "DELETE"}
 	genHdrKeys     = []string{"X-V", "X-Env", "User-Kind"}
 	genHdrVals     = []string{"canary", "prod", "v1"}
-	genHdrRegexps  = []string{`^can`, `^v[0-9]+$`, `prod|v1`}
-	genBackends    = []string{"be-0", "be-1", "be-2", "be-3", "be-4", "be-5", "gone"}
+	// the last two also accept the empty value, i.e. an absent header
+	genHdrRegexps = []string{`^can`, `^v[0-9]+$`, `prod|v1`, `^(|v1)$`, `.*`}
+	genBackends   = []string{"be-0", "be-1", "be-2", "be-3", "be-4", "be-5", "gone"}
 )
 
 func pick(rng *rand.Rand, ss []string) string { return ss[rng.Intn(len(ss))] }
@@ -468,6 +469,9 @@ type genOpts struct {
 
 func genHeader(rng *rand.Rand) gHeader {
 	h := gHeader{Key: pick(rng, genHdrKeys)}
+	if rng.Intn(4) == 0 {
+		h.Key = strings.ToLower(h.Key) // header names are case-insensitive
+	}
 	// a header matcher carries either values or a regexp (DESIGN: ambiguity avoided)
 	if rng.Intn(3) == 0 {
 		h.Regexp = pick(rng, genHdrRegexps)
